@@ -13,6 +13,7 @@ import (
 	"sort"
 	"time"
 
+	"github.com/cosmos/cosmos-sdk/codec"
 	sdk "github.com/cosmos/cosmos-sdk/types"
 	"github.com/cosmos/cosmos-sdk/types/query"
 	"github.com/medibloc/panacea-core/v2/app"
@@ -53,6 +54,16 @@ func (g *genEnv) now(ns int64) {
 var customModules = []string{aoltypes.ModuleName, didtypes.ModuleName, pnfttypes.ModuleName, "burn"}
 
 func exportCustom(c *Chain, ctx sdk.Context) map[string]json.RawMessage {
+	// the module manager exports every module in a goroutine of its own, where a panic cannot be recovered and would
+	// end the harness without an answer; the custom modules are therefore exported once here first, in this goroutine,
+	// so that a panicking export becomes the answer of the operation that asked for it
+	for _, m := range customModules {
+		if hg, ok := c.App.ModuleManager.Modules[m].(interface {
+			ExportGenesis(sdk.Context, codec.JSONCodec) json.RawMessage
+		}); ok {
+			hg.ExportGenesis(ctx, c.App.AppCodec())
+		}
+	}
 	all := c.App.ModuleManager.ExportGenesis(ctx, c.App.AppCodec())
 	out := map[string]json.RawMessage{}
 	for _, m := range customModules {
